@@ -363,6 +363,14 @@ func runC02(r *chk.Run) {
 	for _, c := range casings("rollback") {
 		hr.add(HistInput{Units: []string{UTxRollback, UTxXID, UTxRollback, UAutoRows}, Cfg: cfgA, Rollback: c, LockStep: true})
 	}
+	// a statement logged as two rows events outside BEGIN...COMMIT: each is a
+	// transaction of its own, and the first must not grow when the second arrives
+	for _, cfg := range []ref.Cfg{cfgA, cfgB} {
+		for _, lock := range []bool{true, false} {
+			hr.add(HistInput{Units: []string{UTxXID, UAutoSplit}, Cfg: cfg, LockStep: lock})
+			hr.add(HistInput{Units: []string{UAutoSplit, UTxCommit}, Cfg: cfg, LockStep: lock})
+		}
+	}
 	r.Sample("casing", map[string]interface{}{"units": []string{UTxRollback, UTxXID, UTxRollback, UAutoRows}, "rollback_spelling": "rOLLbacK"})
 	// (2) every noise unit inserted at every slot of a fixed 3-transaction history
 	base := []string{UTxXID, UTx2, UTxCommit, UStmtIn, UTxRollback, UDDL}
